@@ -206,6 +206,7 @@ func (vc *FuncVC) call(b *ssa.BasicBlock, idx int, ins ssa.Instruction, c *ssa.C
 				lab = "assert"
 			}
 			vc.oblige(fmt.Sprintf("assert:%s@%s", lab, shortCallee(key)), ca.Clause.Label, fmt.Sprintf("at call %s (site %d): %s", key, siteNo, ca.Clause.Raw), pos, reach, t)
+			vc.assume(reach, t) // an assertion that has been checked may be used afterwards
 		}
 	}
 	// results
@@ -474,8 +475,14 @@ func (vc *FuncVC) havoc(st *State, mods []modLoc, allocGrows bool) {
 			anyMod = true
 		case "obj", "tree":
 			objMod = true
-		case "addr", "fieldsof":
+		case "addr", "fieldsof", "elems":
 			addrSorts[m.sort] = true
+		case "elems-agg":
+			acc := map[Sort]bool{}
+			vc.leafSorts(m.sort, acc)
+			for ls := range acc {
+				addrSorts[ls] = true
+			}
 		case "map":
 			mapMods = append(mapMods, m)
 		}
@@ -494,7 +501,7 @@ func (vc *FuncVC) havoc(st *State, mods []modLoc, allocGrows bool) {
 			}
 			var hm []modLoc
 			for _, m := range mods {
-				if m.kind == "obj" || m.kind == "tree" || ((m.kind == "addr" || m.kind == "fieldsof") && m.sort == es) {
+				if m.kind == "obj" || m.kind == "tree" || ((m.kind == "addr" || m.kind == "fieldsof" || m.kind == "elems") && m.sort == es) || m.kind == "elems-agg" {
 					hm = append(hm, m)
 				}
 			}
